@@ -1,6 +1,9 @@
 package godi
 
-import "runtime"
+import (
+	"runtime"
+	"sync/atomic"
+)
 
 // goroutineID returns the number the runtime gives the calling goroutine. It is
 // used for one thing only: Close recognises a call that is made, further up the
@@ -13,7 +16,7 @@ func goroutineID() int64 {
 	// "goroutine 123 [running]:"
 	const prefix = "goroutine "
 	if n <= len(prefix) {
-		return -1
+		return 0
 	}
 
 	var id int64
@@ -25,4 +28,11 @@ func goroutineID() int64 {
 	}
 
 	return id
+}
+
+// runsOn reports whether the disposal whose goroutine is recorded in closer is
+// running on the calling goroutine.
+func runsOn(closer *atomic.Int64) bool {
+	id := goroutineID()
+	return id != 0 && closer.Load() == id
 }
